@@ -93,6 +93,7 @@ type Sim struct {
 		Sum64() uint64
 	}
 	seq     uint64
+	frozen  bool // a violation was recorded: later events stay out of the fingerprint
 	buggify map[string]bool
 	onStep  func()
 }
@@ -211,6 +212,16 @@ func (s *Sim) Logf(format string, args ...any) {
 	s.mu.Lock()
 	s.seq++
 	line := fmt.Sprintf(format, args...)
+	if s.frozen {
+		// The reported execution ends with its violation. What the tear-down logs
+		// afterwards (every context cancelled at once, consumers noticing in
+		// whatever order) is kept in the trace but is not part of the fingerprint.
+		if s.trace && len(s.res.Log) < 4000 {
+			s.res.Log = append(s.res.Log, fmt.Sprintf("%04d t=%v (tear-down) %s", s.seq, time.Since(s.start), line))
+		}
+		s.mu.Unlock()
+		return
+	}
 	fmt.Fprintf(s.h, "%d|%s\n", s.seq, line)
 	if s.trace && len(s.res.Log) < 4000 {
 		if debugDraws {
@@ -239,8 +250,14 @@ func (s *Sim) Failf(class, format string, args ...any) {
 	if s.res.Violation == nil {
 		s.res.Violation = &Violation{Class: class, Msg: msg}
 	}
+	first := !s.frozen
 	s.mu.Unlock()
-	s.Logf("VIOLATION %s", class)
+	if first {
+		s.Logf("VIOLATION %s", class)
+		s.mu.Lock()
+		s.frozen = true
+		s.mu.Unlock()
+	}
 }
 
 // Failed reports whether a violation was recorded.
